@@ -123,14 +123,14 @@ func blockedOnGroupMutex(ids map[int64]bool) map[int64]bool {
 
 // ScheduleResult describes one controlled concurrent batch.
 type ScheduleResult struct {
-	Order     []int    `json:"order"`             // actor released at each step
-	Choices   []int    `json:"choices"`           // index into the sorted ready set that was chosen at each step
-	Blocked   int      `json:"blocked"`           // steps at which some actor was found blocked on the group mutex
-	Overlap   bool     `json:"overlap"`           // two actors were between their first and last call at the same time
-	Deadlock  bool     `json:"deadlock"`          // nobody ready, somebody blocked
-	TimedOut  bool     `json:"timedOut"`          // watchdog (inconclusive)
-	Panics    []string `json:"panics,omitempty"`  // escaped panics of actors
-	Stuck     string   `json:"stuck,omitempty"`   // goroutine dump on deadlock / time-out
+	Order     []int    `json:"order"`            // actor released at each step
+	Choices   []int    `json:"choices"`          // index into the sorted ready set that was chosen at each step
+	Blocked   int      `json:"blocked"`          // steps at which some actor was found blocked on the group mutex
+	Overlap   bool     `json:"overlap"`          // two actors were between their first and last call at the same time
+	Deadlock  bool     `json:"deadlock"`         // nobody ready, somebody blocked
+	TimedOut  bool     `json:"timedOut"`         // watchdog (inconclusive)
+	Panics    []string `json:"panics,omitempty"` // escaped panics of actors
+	Stuck     string   `json:"stuck,omitempty"`  // goroutine dump on deadlock / time-out
 	ReadySets [][]int  `json:"readySets,omitempty"`
 }
 
@@ -175,32 +175,60 @@ func (s *Sim) RunConcurrent(fns []func(), choose func(step int, ready []int) int
 	finished := map[int]bool{}
 	step := 0
 	for {
-		// settle: wait until no worker is merely running
+		// settle: wait until every unfinished worker is parked at the gate or - in one and the same
+		// stop-the-world stack inspection - blocked on a group mutex while nobody else runs (then no one
+		// can release a mutex and the state is stable)
 		blocked := map[int]bool{}
 		for {
 			sc.mu.Lock()
-			running := map[int64]int{}
+			nRunning := 0
 			for _, w := range sc.workers {
-				if w.state == wRunning && !blocked[w.id] {
-					running[w.goid] = w.id
+				if w.state == wRunning {
+					nRunning++
 				}
 			}
-			if len(running) == 0 {
+			if nRunning == 0 {
 				sc.mu.Unlock()
 				break
 			}
-			// give it a moment to arrive at the gate by itself
+			// give them a moment to arrive at the gate by themselves
 			waitCond(sc.cond, 200*time.Microsecond)
-			still := map[int64]bool{}
+			still := map[int64]int{}
+			unknown := false
 			for _, w := range sc.workers {
-				if w.state == wRunning && !blocked[w.id] && w.goid != 0 {
-					still[w.goid] = true
+				if w.state == wRunning {
+					if w.goid == 0 {
+						unknown = true
+					}
+					still[w.goid] = w.id
 				}
 			}
 			sc.mu.Unlock()
-			if len(still) > 0 {
-				for g := range blockedOnGroupMutex(still) {
-					blocked[running[g]] = true
+			if len(still) == 0 {
+				break
+			}
+			if !unknown {
+				ids := map[int64]bool{}
+				for g := range still {
+					ids[g] = true
+				}
+				b := blockedOnGroupMutex(ids)
+				if len(b) == len(still) {
+					// re-check the states: a worker may have parked between the two looks; then it is simply ready
+					sc.mu.Lock()
+					stable := true
+					for g, id := range still {
+						if sc.workers[id].state == wRunning && !b[g] {
+							stable = false
+						}
+					}
+					sc.mu.Unlock()
+					if stable {
+						for _, id := range still {
+							blocked[id] = true
+						}
+						break
+					}
 				}
 			}
 			if time.Now().After(deadline) {
